@@ -15,10 +15,10 @@ EXTRACT = ["theories/Extract/ExtractFmt.vo"]
 # shapes (the JSON the driver's S/R commands print) -> token lists -> text
 # ---------------------------------------------------------------------------------------------
 
-CTL_NAMES = ["size", "bits", "regexp", "pcre", "iregexp", "cbor", "within", "and", "lt", "le", "gt", "ge", "eq", "ne",
+CTL_NAMES = ["size", "bits", "regexp", "pcre", "iregexp", "cbor", "cborseq", "within", "and", "lt", "le", "gt", "ge", "eq", "ne",
              "default", "cat", "det", "plus", "abnfb", "abnf", "feature", "b64u-sloppy", "b64c-sloppy", "b64u", "b64c",
              "hexuc", "hexlc", "hex", "base10", "printf", "json", "join", "b32", "h32", "b45", "bitfield"]
-# ".cborseq" is in the grammar's list but can never be parsed (PEG ordered choice takes "cbor" first) - C03's business.
+# ".cborseq" parses since 8d55c20 (listed before "cbor", token boundary after the name).
 
 
 def float_src(bits_hex):
@@ -556,7 +556,7 @@ def peg_control_name(s):
 
 
 # control_name alternatives in the order of cddl.pest
-CTL_NAMES_PEG = ["size", "bits", "regexp", "pcre", "iregexp", "cbor", "cborseq", "within", "and", "lt", "le", "gt", "ge", "eq", "ne",
+CTL_NAMES_PEG = ["size", "bits", "regexp", "pcre", "iregexp", "cborseq", "cbor", "within", "and", "lt", "le", "gt", "ge", "eq", "ne",
                  "default", "cat", "det", "plus", "abnfb", "abnf", "feature", "b64u-sloppy", "b64c-sloppy", "b64u", "b64c",
                  "hexuc", "hexlc", "hex", "base10", "printf", "json", "join", "b32", "h32", "b45", "bitfield"]
 
@@ -1133,6 +1133,25 @@ def unwrap_L(o):
 # comments in documents (shared with C16)
 # ---------------------------------------------------------------------------------------------
 
+def comment_bases():
+    """deterministic base documents for the comment campaigns (every inter-token gap of each gets a comment):
+    (a) 2-, 3- and 4-way type choices inside parentheses, inside a tag, as map / array entry types and as generic argument,
+        so that a comment after the LAST alternative sits directly before the closing bracket or the next entry;
+    (b) rules whose line contains text / byte-string literals with ';' in them before the position of the comment"""
+    out = []
+    for n in (1, 2, 3, 4):
+        alts = " / ".join(["int", "tstr", "bool", "nil"][:n])
+        out += ["a = ( %s )" % alts, "a = ( %s ) / x" % alts, "a = #6.32( %s )" % alts, "a = #6( %s ) / x" % alts,
+                "a = [ %s ]" % alts, "a = [ k: %s , y ]" % alts, "a = [ y , k: %s ]" % alts,
+                "a = { k => %s , z: int }" % alts, "a = { z: int , * tstr => %s }" % alts,
+                "a = [ ( %s ) ]" % alts.replace("/", ","), "a = x .within ( %s )" % alts, "a = [ * ( %s ) ]" % alts,
+                "a = foo< %s >" % alts.split(" / ")[0] if n == 1 else "a = [ 2*3 ( %s ) , + #6.1( %s ) ]" % (alts, alts)]
+    out += ['a = "x;y" / \'p;q\' / h\'01\'', 'a = { "k;1": "v;2" , b: \'z;\' }', 'a = [ "a;b" , tstr .regexp "c;d" ]',
+            'a = "semi;colon" .. "t;u"\nb = \';\' / ";" / b64\'Ozs7\'', 'a = { ";": ";;" , * "x;" => \'y;\' }',
+            'a = #6.1( "q;r" / \'s;t\' )', 'a = [ * ";" ]\nb = ( ";;" / \';;;\' )']
+    return out
+
+
 COMMENT_TEXTS = [" c", "", " has ; semi", ' "quoted" ', " 'q' ", " é😀", " a = int", " // /", ";;", " x ", " ]})", " #6.1(", "\t tab"]
 
 
@@ -1262,6 +1281,7 @@ FIXED_WITNESSES = {
     "unwrap-dropped 5fdde4e": ["a = ~b\nb = [int]", "a = ~b<int>"],
     "tag-without-type 39ac196": ["a = #6", "a = #6.32"],
     "operator-glued-to-name 36b2064": ["a = &b .size 1\nb = (x: 1)", "a = ~b .size 1", "a = &b .. 5"],
+    "cborseq 8d55c20": ["a = bstr .cborseq b", 'a = "x" .cborseq [ int ]'],
     "control-glued-to-controller 36b2064": ['a = "x" .abnf bstr', "a = 1 .hex lc", 'a = "x" .abnf b64\'AA\''],
     "comment first choice f022991": ["a = int ; c1\n / tstr", "a = int\n; c\n/ tstr"],
 }
@@ -1495,7 +1515,8 @@ def run(tier, seed):
         s = g.doc(nrules=rng.choice([1, 2, 3]), depth=rng.choice([0, 1, 1, 2]))
         if len(json.dumps(s)) < 4000:
             base_shapes.append(fix_shape(drv, s)[1])
-    base_rs = roundtrips(drv, [render_shape(s) for s in base_shapes])
+    base_rs = roundtrips(drv, [render_shape(s) for s in base_shapes] + comment_bases())
+    base_shapes = base_shapes + [None] * len(comment_bases())
     ctexts, cmeta = [], []
     for s, b in zip(base_shapes, base_rs):
         if verdict(b) != "ok":
